@@ -794,6 +794,16 @@ func (f *Func) errCalls() (tested []Site, unbound []Site) {
 		if !ok {
 			return false
 		}
+		// building an error value is not a step that can fail
+		if fn, isFn := calleeObj(info, call).(*types.Func); isFn {
+			full := fn.Name()
+			if fn.Pkg() != nil {
+				full = fn.Pkg().Path() + "." + fn.Name()
+			}
+			if full == "fmt.Errorf" || full == "errors.New" || fn.Name() == "fmtErrorf" {
+				return false
+			}
+		}
 		switch t := tv.Type.(type) {
 		case *types.Tuple:
 			for i := 0; i < t.Len(); i++ {
